@@ -3,7 +3,7 @@
 registered checks against each, using a scratch worktree through VERIF_REPO.  Usage: seedall.py <seed dirs...>
 Each seed dir is /tmp/seed_<ID>/SEED/<X>; results go to /verif/seeded/<ID>-<X>/."""
 import sys, os, json, subprocess, shutil, time
-ROOT = "/verif"
+ROOT = os.path.dirname(os.path.dirname(os.path.abspath(__file__)))
 WT = "/tmp/seedwt"
 
 def sh(cmd, cwd=None, timeout=3600, env=None):
